@@ -36,7 +36,11 @@ func argsChecked(o *Obs) int64 {
 
 func runC04(c *eng.Ctx) {
 	cr := &caseRunner{c: c, prop: "C04"}
-	defer func() { RunEqualValues(c, "C04", cr.next); RunZeroValuedOutputs(c, cr.next); RunVariadic(c, "C04", cr.next) }()
+	defer func() {
+		RunEqualValues(c, "C04", cr.next)
+		RunZeroValuedOutputs(c, cr.next)
+		RunVariadic(c, "C04", cr.next)
+	}()
 	finish := func(idx int, r *Run, kind string) {
 		o := Digest(r)
 		report(c, "C04", idx, r, MonC04(r, o))
